@@ -29,6 +29,15 @@ theorem conv1_closed (τ : Nat → ℚ) (nknots p naxes : Nat) (c : Nat → ℚ)
   rw [tileSum_dd2 τ y p q' j x (fun a b hab hb => hτ a b hab (by omega)) hy hx]
   ring
 
+/-- the specification's integral is a fixed linear form in the coefficients `c 0 … c (naxes-1)` -/
+theorem conv1_linear_form (τ : Nat → ℚ) (nknots p naxes : Nat) (y : Nat → ℚ) (q' : Nat) (x : ℚ)
+    (hn : naxes + p + 1 = nknots)
+    (hτ : ∀ a b, a < b → b < nknots → τ a < τ b)
+    (hy : ∀ a b, a < b → b ≤ q' + 1 → y a < y b) :
+    ∃ K : Nat → ℚ, ∀ c : Nat → ℚ, ConvSpec.conv1 τ nknots p naxes c y (q'+1) x = ∑ j ∈ range naxes, c j * K j :=
+  ⟨_, fun c => conv1_as_dd2 τ nknots p naxes c y q' x hn hτ hy (fun m r => betaPhi p q' (x - τ m) (y r))
+    (fun m r t => betaPhi_deriv p q' (x - τ m) (y r) t)⟩
+
 /-- on the closed interval `[ρ_left, ρ_{left+1}]` the truncated power cut at the interval is the truncated power -/
 theorem cut_eq_pospow (s x lo hi : ℚ) (n : Nat) (hn : 1 ≤ n) (hlt : lo < hi) (h1 : lo ≤ x) (h2 : x ≤ hi)
     (hs : s ≤ lo ∨ hi ≤ s) :
